@@ -93,6 +93,29 @@ def _parallel_scan(prog: Program, col: Collector, refs: Refs):
     tail_if = next((a for a in f.module.ancestors(tails[0]) if isinstance(a, ast.If)), None)
     bad = None
     tried = 0
+    # the guard of the odd tail is an integer condition on the duration; any further conjunct that is not one (`and time in trans.inputs`)
+    # drops the last time step whenever it is false - the step exists whatever the transition depends on
+    tail_test = tail_if.test if tail_if is not None else None
+    if tail_test is not None and isinstance(tail_test, ast.BoolOp) and isinstance(tail_test.op, ast.And):
+        int_atoms, other = [], []
+        env5 = {dname: 5}
+        for st in assigns:
+            if upd and st is upd[0]:
+                break
+            try:
+                env5[st.targets[0].id] = _ev(st.value, env5)
+            except _NoEval:
+                pass
+        for at in tail_test.values:
+            try:
+                _ev(at, env5)
+                int_atoms.append(at)
+            except Exception:
+                other.append(at)
+        if other and int_atoms and not tail_if.orelse:
+            col.violation(construct + "::odd tail", f"the last step of an odd round is appended only when `{norm(other[0])}` also holds: where it does not, that time step is silently dropped from "
+                          "the product (a transition that does not depend on time still has `duration` steps), and nothing else handles the case", f.loc(tail_if))
+            tail_test = int_atoms[0] if len(int_atoms) == 1 else ast.BoolOp(op=ast.And(), values=int_atoms)
     try:
         for D in range(2, 17):
             env = {dname: D}
@@ -106,7 +129,7 @@ def _parallel_scan(prog: Program, col: Collector, refs: Refs):
             r0, r1 = _rng(strided[0], env), _rng(strided[1], env)
             lo, hi = (r0, r1) if (r0[:1] or [0]) <= (r1[:1] or [0]) else (r1, r0)
             lo_call, hi_call = (strided[0], strided[1]) if lo is r0 else (strided[1], strided[0])
-            has_tail = bool(_ev(tail_if.test, env)) if tail_if is not None else True
+            has_tail = bool(_ev(tail_test, env)) if tail_test is not None else True
             tail = _rng(tails[0], env) if has_tail else []
             tried += 1
             problems = []
@@ -523,6 +546,10 @@ def run(prog: Program, col: Collector, tier: str, refs: Optional[Refs] = None, c
     _markov_product_rule(prog, col, refs, cat)
     col.rule("R10.7", "the prev->drop and curr->drop renamings pair the i-th previous name and the i-th current name of ONE ordering of the state pairs", floor=2)
     _drop_maps_share_an_order(prog, col, refs)
+    # R10.8: each halving round is a Contraction of two factors over the auxiliary names; with lazy factors it is evaluated by the pairwise
+    # recursion of cnf.py, which sums a variable inside a pair only if exactly that pair mentions it (shared with C08 R08.12)
+    from . import algebra
+    algebra.r_exact_counts(prog, col, refs, cat, "R10.8")
     # R10.6: the scan contracts through the log-einsum kernels for the (logaddexp, add) semiring (shared with C02 R02.11 / C15 R15.8)
     from . import numerics
     numerics.run(prog, col, refs, cat, rule_log="R10.6", rule_safe=None)
